@@ -230,7 +230,7 @@ func propC02Cut(c c02Case, o *Outcome) *Outcome {
 	for n := c.CutPhase % stride; n < mustHave; n += stride {
 		for _, abrupt := range []bool{false, true} {
 			o.Sub++
-			obs := runScript(s, c.Carrier, carrierOpts{WrapConn: func(nc net.Conn) net.Conn { return &cutConn{Conn: nc, remaining: n, abrupt: abrupt} }})
+			obs := runScript(s, c.Carrier, carrierOpts{WrapConn: func(nc net.Conn) net.Conn { return &cutConn{Conn: nc, remaining: n, abrupt: abrupt, afterReply: true} }})
 			if obs.HandlerRuns > 1 {
 				return o.failf("%s/%s: reply cut after %d bytes (abrupt=%v): one call made the handler run %d times (the request was delivered more than once)", c.Carrier, s.Kind, n, abrupt, obs.HandlerRuns)
 			}
